@@ -61,7 +61,7 @@ def drive(jobs, fn, procs=16):
 
 
 def plan(tier, rng):
-    n = 1400 if tier == 'quick' else 20000
+    n = 2400 if tier == 'quick' else 32000
     maxw, maxh = (7, 7) if tier == 'quick' else (10, 10)
     return [(rng.getrandbits(48), KINDS[i % len(KINDS)], rng.randint(1, 3 if tier == 'quick' else 5), maxw, maxh) for i in range(n)]
 
@@ -144,6 +144,12 @@ def run(tier, seed, replay=None):
     odfdo = common.use_repo()
     proofs = common.build_proofs(PROP, ('Transformchk',))
     known = {e['key']: e for e in common.known_findings(PROP)}
+    chk_proc = None
+    if tier == 'thorough' and not replay and proofs['ok']:
+        # independent re-check of the compiled proofs (and their whole dependency cone) by coqchk, in the background
+        import subprocess
+        chk_proc = subprocess.Popen('timeout 1500 coqchk -silent -o -R theories "" C17', shell=True, cwd=common.COQ,
+                                    stdout=subprocess.PIPE, stderr=subprocess.STDOUT, text=True)
     corpus = [json.load(open(f))['case'] for f in sorted((common.ROOT / 'corpus' / PROP).glob('*.json'))]
     csv_part = None
     if replay:
@@ -211,6 +217,14 @@ def run(tier, seed, replay=None):
                 known_seen.append('%s (%s)' % (key, known[key]['description'][:110]))
             else:
                 violations.append((common.write_replay(PROP, seed, 'csv-' + common.digest(key)[:8], payload), False))
+    coqchk_cov = {}
+    if chk_proc is not None:
+        out = chk_proc.communicate()[0]
+        summ = out[out.find('CONTEXT SUMMARY'):] if 'CONTEXT SUMMARY' in out else out[-600:]
+        coqchk_cov = dict(coqchk_cmd='cd coq && coqchk -silent -o -R theories "" C17', coqchk_exit=chk_proc.returncode,
+                          coqchk_summary=' '.join(summ.split()))
+        if chk_proc.returncode != 0 or 'Axioms: <none>' not in ' '.join(summ.split()):
+            errors.append('coqchk: ' + ' '.join(summ.split())[:400])
     # model-level / abstraction-level trouble: look for a concrete failing input with the direct Python reference
     soft_msgs, found = [], False
     if soft or abstraction_failures or not proofs['ok'] or errors:
@@ -243,7 +257,7 @@ def run(tier, seed, replay=None):
         samples=[dict(initial=c['init_xml'][:500], steps=c['steps'][:3]) for c, r in results[len(corpus):len(corpus) + 3]],
         corpus_cases=len(corpus), fidelity_divergences=fid, fidelity_ratio=round(1 - fid / max(1, len(results)), 4),
         modelled=MODELLED, exhaustive=False, known_findings_reobserved=len(known_seen))
-    cov.update(histogram(results)); cov.update(cov_csv)
+    cov.update(histogram(results)); cov.update(cov_csv); cov.update(coqchk_cov)
     if fid:
         print('NOTE: %d histories where only the exact run-length shape differs from the model (fidelity, not an alarm)' % fid)
     return common.finish(PROP, tier, seed, proofs, cov, violations, known_seen, t0,
